@@ -20,8 +20,8 @@ class Decls:
         self.order = []
         types = []
         for i, nm in enumerate(names):
-            k = r.choice(["struct", "struct", "struct", "typedef", "enum", "fn", "fn", "var"])
-            if k in ("typedef", "fn", "var") and not types and k != "fn":
+            k = r.choice(["struct", "struct", "struct", "typedef", "typedef", "enum", "fn", "fn", "var", "const", "const"])
+            if k in ("typedef", "fn", "var", "const") and not types and k != "fn":
                 k = "struct"
             needs = set()
 
@@ -46,9 +46,22 @@ class Decls:
             elif k == "fn":
                 args = ", ".join("%s a%d" % (ty(), j) for j in range(r.randrange(0, 3))) or "void"
                 text = "%s %s(%s);" % (ty(), nm, args)
+            elif k == "const":
+                # a constant with a value: its declared type (a typedef of a scalar, an enum, or a plain scalar) is still needed
+                scal = [t for t in types if self.items[t]["kind"] == "enum" or (self.items[t]["kind"] == "typedef" and self.items[t].get("scalar"))]
+                if scal and r.random() < 0.8:
+                    t = r.choice(scal)
+                    needs.add(t)
+                    spell = "enum %s" % t if self.items[t]["kind"] == "enum" else t
+                else:
+                    spell = r.choice(["int", "unsigned long", "char"])
+                text = "static const %s %s = %d;" % (spell, nm, r.choice([0, 7, 21]))
             else:
                 text = "extern %s %s;" % (ty(), nm)
             self.items[nm] = {"kind": k, "text": text, "needs": needs}
+            if k == "typedef":
+                base = text.split()[1]
+                self.items[nm]["scalar"] = (not needs) or all(self.items[x]["kind"] == "enum" or self.items[x].get("scalar") for x in needs) and "*" not in text
             self.order.append(nm)
             if k in ("struct", "typedef", "enum"):
                 types.append(nm)
@@ -179,12 +192,19 @@ def run(ck):
             # allowlist scenarios
             scen = []
             names = g.order
-            for _ in range(3):
+            leaf_roots = [x for x in names if g.items[x]["kind"] in ("const", "var", "fn") and g.items[x]["needs"]]
+            for si_ in range(4):
                 roots = r.sample(names, r.choice([1, 1, 2, 3]))
                 form = r.choice(["literal", "alt", "prefix", "class"])
+                if si_ == 3:
+                    # one scenario selects a single leaf declaration (constant, variable or function) that needs a type:
+                    # everything it needs is then reachable only through it
+                    if not leaf_roots:
+                        continue
+                    roots, form = [r.choice(leaf_roots)], "literal"
                 pats = {}
                 for x in roots:
-                    kind = {"struct": "type", "typedef": "type", "enum": "type", "fn": "function", "var": "var"}[g.items[x]["kind"]]
+                    kind = {"struct": "type", "typedef": "type", "enum": "type", "fn": "function", "var": "var", "const": "var"}[g.items[x]["kind"]]
                     pats.setdefault(kind, []).append(x)
                 flags = []
                 matched = set()
@@ -201,13 +221,13 @@ def run(ck):
                     for pp in plist:
                         flags += ["--allowlist-%s" % kind, pp]
                         for nm in names:
-                            k2 = {"struct": "type", "typedef": "type", "enum": "type", "fn": "function", "var": "var"}[g.items[nm]["kind"]]
+                            k2 = {"struct": "type", "typedef": "type", "enum": "type", "fn": "function", "var": "var", "const": "var"}[g.items[nm]["kind"]]
                             if k2 == kind and re.fullmatch(pp, nm):
                                 matched.add(nm)
                 blocked = set()
                 if r.random() < 0.35:
                     b = r.choice(names)
-                    k2 = {"struct": "type", "typedef": "type", "enum": "type", "fn": "function", "var": "var"}[g.items[b]["kind"]]
+                    k2 = {"struct": "type", "typedef": "type", "enum": "type", "fn": "function", "var": "var", "const": "var"}[g.items[b]["kind"]]
                     flags += ["--blocklist-%s" % k2, b]
                     blocked.add(b)
                 scen.append((flags, matched, blocked))
